@@ -13,7 +13,10 @@
      - nothing executed on the current branch is pending; a block joining the branch takes exactly the pending
        transactions that share an atom with it; the side block makes its not executed transactions pending;
      - a batch handled while a block is being inserted ends like one of the two orders (or any per-transaction mix);
-     - the chain stays linear on the main branch, the cache keeps what waits.
+     - the chain stays linear on the main branch, the cache keeps what waits;
+     - no step costs the sender its connection (peer_dropped: the node closed the scripted peer's session during the step):
+       every message is well-framed, a batch holds valid transactions and ones merely refused by the body check - those are
+       skipped (the valid ones before AND behind them reach the pool, which is the first rule), never an error of the message.
    Named deviations: Dev_BoxSubIndexStale (known_findings.txt) and Dev_TxAddedAfterItsBlock (repaired in /repo 346a7d7 and
    therefore not listed: a trace that needs it is a violation). *)
 EXTENDS TraceBase
@@ -41,6 +44,7 @@ PoolOf(e) == ToSet(e.pool)
 New(e) == HasOf(e) \ has
 
 StateOK(e, lt) ==
+    /\ e.peer_dropped = FALSE                                                   \* the sender still has its connection
     /\ HasOf(e) = 1..Len(e.has) /\ has \subseteq HasOf(e)                       \* linear, only grows
     /\ e.cur = Len(e.has) /\ e.curmain /\ e.stable = 0                          \* the current block is the main tip
     /\ WaitOf(e) \subseteq 1..Len(blk) /\ WaitOf(e) \cap HasOf(e) = {} /\ Len(e.wait) = Cardinality(WaitOf(e))
